@@ -201,13 +201,17 @@ def check_introspection_failures(status_i: int, json_ok: bool, body: int, raise_
     # which CrossHair cannot finish (measured: not confirmed in 300 s); httpx.codes.is_success itself is covered symbolically by C12
     status = STATUSES[pick(status_i, len(STATUSES))]
     b = pick(body, len(BODIES))
-    rk = pick(raise_kind, 2)
+    rk = pick(raise_kind, 4)
     calls = []
 
     def post(url, **kw):
         calls.append((url, kw))
         if rk == 1:
             raise httpx.InvalidURL("bad")
+        if rk == 2:
+            raise httpx.UnsupportedProtocol("Request URL is missing an 'http://' or 'https://' protocol.")
+        if rk == 3:
+            raise httpx.ConnectError("[Errno -2] Name or service not known")
         return StubResponse(status, True if json_ok else False, BODIES[b])
 
     old = sch.httpx.post
@@ -230,7 +234,43 @@ def check_introspection_failures(status_i: int, json_ok: bool, body: int, raise_
     should_succeed = rk == 0 and (200 <= status <= 299) and json_ok and b in VALID
     if should_succeed:
         return sent_ok and outcome == ("ok", BODIES[b]["data"])
+    if sent_ok and rk in (2, 3) and outcome == ("other", ["", "", "UnsupportedProtocol", "ConnectError"][rk]):
+        # only httpx.InvalidURL is translated: a URL without scheme / an unreachable host escapes as the raw httpx exception
+        return known("C19-bad-url-raw-httpx-error")
     return sent_ok and outcome == ("introspection_error",)
+
+
+MALFORMED_DATA = [{"__schema": {"ok": 1}}, {"__schema": None}, {}, {"__schema": {"queryType": {"name": "Q"}, "types": "x", "directives": []}},
+                  {"__schema": {"queryType": {"name": "Q"}, "types": [{"kind": "OBJECT"}], "directives": []}}]
+
+
+def check_malformed_introspection_data(which: int) -> bool:
+    """
+    post: _
+    """
+    from ariadne_codegen import schema as sch
+    from ariadne_codegen.exceptions import IntrospectionError
+
+    w = pick(which, len(MALFORMED_DATA))
+    with NoTracing():
+        old = sch.httpx.post
+        sch.httpx.post = lambda url, **kw: StubResponse(200, True, {"data": MALFORMED_DATA[w]})
+        try:
+            try:
+                sch.get_graphql_schema_from_url("http://h/graphql")
+                outcome = "accepted"
+            except IntrospectionError:
+                outcome = "introspection_error"
+            except Exception as e:  # noqa: BLE001
+                outcome = "other:" + type(e).__name__
+        finally:
+            sch.httpx.post = old
+    if outcome == "introspection_error":
+        return True
+    if outcome.startswith("other:"):
+        # a 2xx JSON answer whose data is not an introspection result reaches build_client_schema, whose TypeError / KeyError escapes
+        return known("C19-malformed-introspection-data-raw-error")
+    return False
 
 
 def check_headers_env(kind: int, present: bool) -> bool:
